@@ -38,7 +38,9 @@ def classify(path, pol):
     if path == fd:
         return "fileDictDir"
     if os.path.dirname(path) == fd:
-        return "fileDict"
+        # only the dictionaries of the documents of this session: <path segments joined by %>
+        names = pol.get("fileDictNames")
+        return "fileDict" if names is None or os.path.basename(path) in names else "other"
     for target in (pol["userDict"], pol["stats"], fd):
         if target.startswith(path.rstrip("/") + "/"):
             return "ancestor"
@@ -105,14 +107,41 @@ def parse_strace(path, pol, cwd):
     return evs, raw
 
 
-def run_server(mode, wd, v):
-    """One complete LSP session against the real binary under strace."""
-    home = os.path.join(wd, f"home_{mode}")
+def _kill_group(p):
+    """strace -f detaches from its children when killed: kill the whole session, server included."""
+    import signal
+    try:
+        os.killpg(os.getpgid(p.pid), signal.SIGKILL)
+    except OSError:
+        pass
+    try:
+        p.wait(timeout=5)
+    except Exception:       # noqa: BLE001
+        pass
+
+
+def run_server(mode, wd, v, pre=False):
+    """One complete LSP session against the real binary under strace.  pre: the dictionaries and the
+    statistics file exist beforehand, in states a user or another tool may have left them in."""
+    home = os.path.join(wd, f"home_{mode}" + ("_pre" if pre else ""))
     docs = os.path.join(home, "docs")
     os.makedirs(docs, exist_ok=True)
     pol = {"userDict": os.path.join(home, "cfg", "harper-ls", "my_dict.txt"),
            "fileDictDir": os.path.join(home, "data", "file_dicts"),
            "stats": os.path.join(home, "data", "stats", "stats.txt")}
+    pol["fileDictNames"] = {"".join(seg + "%" for seg in os.path.join(docs, name).split("/") if seg) for name, _, _ in TEXTS}
+    if pre:
+        os.makedirs(os.path.dirname(pol["userDict"]), exist_ok=True)
+        os.makedirs(pol["fileDictDir"], exist_ok=True)
+        os.makedirs(os.path.dirname(pol["stats"]), exist_ok=True)
+        with open(pol["userDict"], "wb") as f:        # duplicates, case variants, CRLF, blank line, no final terminator
+            f.write("harperish\nharperish\nHarperish\r\nfoo\n\nfoo\nbar".encode())
+        for k, (name, _, _) in enumerate(TEXTS[:2]):
+            fd = "".join(seg + "%" for seg in os.path.join(docs, name).split("/") if seg)
+            with open(os.path.join(pol["fileDictDir"], fd), "wb") as f:
+                f.write(b"caf\xe9\nword\nword\n" if k == 0 else b"alpha\nalpha\nalpha\nbeta")   # not UTF-8 / duplicates
+        with open(pol["stats"], "wb") as f:
+            f.write(b'not json\n{"kind":"Lint","when":1,"uuid":"00000000-0000-0000-0000-000000000000"}\n')
     settings = {"harper-ls": {"userDictPath": pol["userDict"], "fileDictPath": pol["fileDictDir"], "statsPath": pol["stats"],
                               "linters": {"SpelledNumbers": True}, "dialect": "British"}}
     env = dict(os.environ, HOME=home, XDG_CONFIG_HOME=os.path.join(home, "xdg_config"), XDG_DATA_HOME=os.path.join(home, "xdg_data"))
@@ -120,7 +149,7 @@ def run_server(mode, wd, v):
     ok = False
     if mode == "stdio":
         p = subprocess.Popen(["strace", "-f", "-o", st, "-e", "trace=" + SYSCALLS, LS_BIN, "--stdio"], stdin=subprocess.PIPE,
-                             stdout=subprocess.PIPE, stderr=subprocess.DEVNULL, env=env, cwd=home)
+                             stdout=subprocess.PIPE, stderr=subprocess.DEVNULL, env=env, cwd=home, start_new_session=True)
         c = lspclient.Client(p.stdout, p.stdin, settings)
         try:
             lspclient.full_session(c, docs, TEXTS)
@@ -130,7 +159,7 @@ def run_server(mode, wd, v):
         try:
             p.wait(timeout=10)
         except subprocess.TimeoutExpired:
-            p.kill()
+            _kill_group(p)
     else:
         # the listener address is fixed (127.0.0.1:4000)
         probe = socket.socket()
@@ -140,7 +169,7 @@ def run_server(mode, wd, v):
         except OSError:
             raise common.ToolError("port 4000 is busy: cannot run the TCP-mode session")
         p = subprocess.Popen(["strace", "-f", "-o", st, "-e", "trace=" + SYSCALLS, LS_BIN], stdin=subprocess.DEVNULL,
-                             stdout=subprocess.PIPE, stderr=subprocess.DEVNULL, env=env, cwd=home)
+                             stdout=subprocess.PIPE, stderr=subprocess.DEVNULL, env=env, cwd=home, start_new_session=True)
         p.stdout.readline()   # "Listening on ..."
         s = None
         for _ in range(100):
@@ -150,7 +179,7 @@ def run_server(mode, wd, v):
             except OSError:
                 time.sleep(0.05)
         if s is None:
-            p.kill()
+            _kill_group(p)
             raise common.ToolError("could not connect to harper-ls on 127.0.0.1:4000")
         rf, wf = s.makefile("rb"), s.makefile("wb")
         c = lspclient.Client(rf, wf, settings)
@@ -166,12 +195,15 @@ def run_server(mode, wd, v):
         try:
             p.wait(timeout=10)
         except subprocess.TimeoutExpired:
-            p.kill()
+            _kill_group(p)
     evs, raw = parse_strace(st, pol, home)
     # did the session really exercise the persistence paths?
     wrote = {e["pclass"] for e in evs if e["call"] == "open_write"}
+    if not ok:
+        # a request timed out or the pipe broke: nothing can be concluded from a half-played session
+        raise common.ToolError(f"the {mode} session with harper-ls did not run to its end")
     return ([{"ev": "Proc", "mode": mode}] + evs +
-            [{"ev": "SessionOk", "ok": ok and {"userDict", "fileDict", "stats"} <= wrote, "wrote": sorted(wrote)}]), raw
+            [{"ev": "SessionOk", "ok": {"userDict", "fileDict", "stats"} <= wrote, "wrote": sorted(wrote)}]), raw
 
 
 def run_lib(wd, corp):
@@ -223,10 +255,10 @@ def run(v):
              "library mode: every emitted effect is in the allowed alphabet")
     _, corp = corpus.harvest()
     evs, raws = [], {}
-    for mode in ("stdio", "tcp"):
-        e, raw = run_server(mode, wd, v)
+    for mode, pre in (("stdio", False), ("tcp", False), ("stdio", True)):
+        e, raw = run_server(mode, wd, v, pre)
         evs += e
-        raws[mode] = raw
+        raws[mode + ("_pre" if pre else "")] = raw
     e, raw = run_lib(wd, corp)
     evs += e
     raws["lib"] = raw
@@ -238,7 +270,7 @@ def run(v):
     consumed, rejects, _ = common.validate_trace(TRACE_TLA, TRACE_CFG, trace, "c10_t", timeout=600)
     if consumed != len(evs):
         raise common.ToolError(f"trace: consumed {consumed} of {len(evs)} events")
-    v.cov["traces_validated_against_impl"] = 3
+    v.cov["traces_validated_against_impl"] = 4
     v.cov["evaluations"] = len(evs)
     v.cov["distinct_nontrivial"] = len({(x.get("call"), x.get("pclass"), x.get("family"), x.get("name")) for x in evs})
     v.cov["samples"] = [x for x in evs if x["ev"] == "Sys"][:6] + [x for x in evs if x["ev"] == "Dep"][:3]
@@ -254,8 +286,9 @@ def run(v):
         else:
             sig = {"kind": rej[1]}
         v.failure(sig, {"event": e})
-    v.cov["rule"] = ("strace -f of the real harper-ls binary (built from /repo) during one complete LSP session in stdio mode and one in "
-                     "TCP mode - initialize, configuration round trips, didOpen/didChange for plain text, Markdown and Rust, codeAction, "
+    v.cov["rule"] = ("strace -f of the real harper-ls binary (built from /repo) during one complete LSP session in stdio mode, one in "
+                     "TCP mode and one in stdio mode over dictionaries and a statistics file that already exist (duplicates, case "
+                     "variants, CRLF, no final terminator, bytes that are not UTF-8, unreadable records) - initialize, configuration round trips, didOpen/didChange for plain text, Markdown and Rust, codeAction, "
                      "every command the server offers except the user-initiated HarperOpen, add-to-user/file-dictionary, didSave, "
                      "didChangeConfiguration, watched-file delete, didClose, shutdown, exit - and of a process that only lints through "
                      "the library, the comment parsers and the JS-facing API; every network call and every write-open/mkdir/rename/"
